@@ -2,7 +2,7 @@
    destination followed by a well-formed literal with the sign of the argument ("0" when the mantissa is 0). *)
 From Coq Require Import ZifyBool Floats.SpecFloat.
 From Verif Require Import Common.Base Common.Tactics Strconv.Model Strconv.FModel Strconv.IntProofs Strconv.NumProofs
-  Strconv.DecProofs Strconv.AFProofs Strconv.AFCheck1 Strconv.AFCheck2 Strconv.AFCheck3 Strconv.AFCheck4 Gen.Tables.
+  Strconv.DecProofs Strconv.AFProofs Strconv.AFLitProofs Strconv.AFCheck1 Strconv.AFCheck2 Strconv.AFCheck3 Strconv.AFCheck4 Gen.Tables.
 
 Lemma af_check_ok neg L z prec : 1 <= L <= 19 -> 0 <= z <= L - 1 -> -350 <= prec <= 350 ->
   af_check_one neg L z prec = true.
@@ -20,9 +20,12 @@ Proof.
   apply (Hr 17 19 af_check_17_19); lia.
 Qed.
 
-(* the layout, for every mantissa of the int64 range and every adjusted precision AppendFloat can reach *)
-Lemma af_print_shape_proof : forall b spare neg mant prec, 1 <= mant < 10 ^ 19 -> -350 <= prec <= 350 ->
-  exists out, af_print b spare neg mant prec = Ok (b ++ out) /\ float_literal neg out.
+(* the layout and what it denotes, for every mantissa of the int64 range and every adjusted precision AppendFloat can
+   reach: a well-formed literal, signed as asked, whose unsigned part reads (q * 10^bb, t0 - prec - bb) with
+   mant = q * 10^t0, that is mant * 10^-prec *)
+Lemma af_print_value_proof : forall b spare neg mant prec, 1 <= mant < 10 ^ 19 -> -350 <= prec <= 350 ->
+  exists out, af_print b spare neg mant prec = Ok (b ++ out) /\ float_literal neg out /\ lit_neg out = neg /\
+    exists q t0 bb, 0 <= t0 /\ 0 <= bb /\ mant = q * 10 ^ t0 /\ lit_mant_exp (lit_body out) = (q * 10 ^ bb, t0 - prec - bb).
 Proof.
   intros b spare neg mant prec Hm Hp.
   destruct (shape_exists mant Hm) as (L & z & HL & Hsh).
@@ -30,15 +33,24 @@ Proof.
   pose proof (af_check_ok neg L z prec HL ltac:(lia) Hp) as Hc. unfold af_check_one in Hc.
   rewrite (canon_mant_repunit L z ltac:(lia)) in Hc.
   set (m0 := repunit (Z.to_nat (L - z)) * 10 ^ z) in *.
-  destruct (af_print [] markers neg m0 prec) as [out0| |] eqn:E0; try discriminate.
-  apply andb_true_iff in Hc. destruct Hc as [Hnm Hlit].
+  destruct (af_print_g tag_enc [] markers neg m0 prec) as [out0| |] eqn:E0; try discriminate.
+  apply andb_true_iff in Hc. destruct Hc as [Hnm Htag].
+  unfold tag_check in Htag. cbv zeta in Htag. apply andb_true_iff in Htag. destruct Htag as [Heq Hside].
+  apply zlist_eqb_eq in Heq.
+  pose proof (tag_form_sound neg L z prec mant _ _ _ _ _ _ Hside Hsh) as Hsound. cbv zeta in Hsound. rewrite <- Heq in Hsound.
   pose proof (canon_ndig L z Hz) as Hn0. fold m0 in Hn0.
   destruct (ndig_len_uint L mant HL Hn) as [_ Hl]. destruct (ndig_len_uint L m0 HL Hn0) as [_ Hl0].
   assert (Hm0 : m0 <> 0).
   { destruct Hn0 as [[H _]|[_ H]]; [lia|]. assert (0 < 10 ^ (L - 1)) by (apply Z.pow_pos_nonneg; lia). lia. }
-  destruct (af_print_rel b spare neg mant m0 prec out0 ltac:(congruence) ltac:(lia) Hm0 (sim_canon 20 L z mant Hsh) E0 Hnm)
-    as (out & Hout & Hrel).
-  exists out. split; [exact Hout|]. apply (float_literal_vrel neg out out0 Hrel). apply float_lit_sound. exact Hlit.
+  pose proof (af_print_rel mant b spare neg m0 prec out0 ltac:(congruence) ltac:(lia) Hm0 (sim_canon 20 L z mant Hsh) E0 Hnm) as Hout.
+  exists (map (subst mant) out0). split; [exact Hout|exact Hsound].
+Qed.
+
+Lemma af_print_shape_proof : forall b spare neg mant prec, 1 <= mant < 10 ^ 19 -> -350 <= prec <= 350 ->
+  exists out, af_print b spare neg mant prec = Ok (b ++ out) /\ float_literal neg out.
+Proof.
+  intros b spare neg mant prec Hm Hp. destruct (af_print_value_proof b spare neg mant prec Hm Hp) as (out & H1 & H2 & _).
+  exists out. split; assumption.
 Qed.
 
 (* ---- the adjusted precision stays within the verified window --------------------------------------------------- *)
